@@ -46,7 +46,7 @@ NUM = re.compile(r'^[-+]?(\d+\.?\d*|\.\d+)([eE][-+]?\d+)?$')
 
 
 # appended to RULE in the evidence (vlib/runner.py)
-RULE_ADDENDUM = 'Added in round 4: start clock times in every hour of the day (G-model).'
+RULE_ADDENDUM = 'Added in round 4: start clock times in every hour of the day (G-model). Round 7: the keyword options of [REPORT] (status, summary, energy) are generated and compared; every third chemical model changes its concentration unit between two writes.'
 
 def n_cases(tier):
     return 200 if tier == 'quick' else 10000
